@@ -333,6 +333,22 @@ func TestVF_C06(t *testing.T) {
 				}
 			}
 		}
+		// a long-lived DTLS 1.3 epoch: the wire carries 16 bits of the record number, so beyond 65536 records the
+		// receiver reconstructs it; records just below a multiple of 65536 arrive a few places late, after it
+		if v.Cfg.Is13() && (vfThorough() || v.Name == "13-gcm") {
+			const total = 65545
+			s = make([]int, 0, total)
+			for i := 0; i < total; i++ {
+				if i >= 65533 && i <= 65535 {
+					continue
+				}
+				s = append(s, i)
+				if i == 65539 {
+					s = append(s, 65533, 65534, 65535)
+				}
+			}
+			cases = append(cases, vfC06Case{Name: v.Name, Cfg: v.Cfg, W: 64, N: total, Script: s, ScriptTag: "long-epoch-late-records-across-65536"})
+		}
 		// PRNG long scripts
 		for k := 0; k < vfPick(6, 200); k++ {
 			r := vfRand("C06/long/"+v.Name, k)
